@@ -12,19 +12,6 @@ import Deltio.Lemmas.Base64
 -/
 namespace Deltio
 
-/-- What the endpoint did with one POST. -/
-inductive Outcome where
-  | status (code : Nat)     -- an HTTP status arrived
-  | connError               -- connection refused / reset / broken
-  | pending                 -- no answer (yet)
-deriving DecidableEq, Repr
-
-/-- `dispatch_message`: the turn the dispatcher issues for a delivery with ack id `a`. -/
-def dispatchTurn (a : Nat) : Outcome → Option SubTurn
-  | .status c => if pushAccepts c then some (.ack [a]) else some (.modify [(a, none)])
-  | .connError => some (.modify [(a, none)])
-  | .pending => none
-
 /-- Accepted statuses: exactly 102, 200, 201, 202, 204. -/
 theorem C14_statuses (c : Nat) : pushAccepts c = true ↔ (c = 102 ∨ c = 200 ∨ c = 201 ∨ c = 202 ∨ c = 204) := by
   simp [pushAccepts, or_assoc]
